@@ -90,8 +90,8 @@ def penalty_specs(pname, dspec, X, y, fit_intercept, tier, fracs=None):
         a0 = RC.alpha_crit(prob)
     except Exception:
         a0 = 1.0
-    if not np.isfinite(a0) or a0 <= 0:
-        a0 = 1.0
+    if not np.isfinite(a0) or a0 <= 1e-8:
+        a0 = 1.0                # null model already stationary (zero / constant targets): any scale will do
     fr = fracs or ((0.3, 0.03) if tier == "quick" else (1.5, 0.5, 0.1, 0.01))
     out = []
     Lmin = lips_min(dspec, X, y)
